@@ -92,7 +92,7 @@ Section Go.
     match steps with
     | [] => []
     | Proc cs len dt :: rest =>
-        match (let! s1 := on_start_processing frame32 frame_zero fuel s (mk_cmds cs) in
+        match (let! s1 := on_start_processing frame32 frame_zero s (mk_cmds cs) in
                process (powf64_tab tab) frame32 frame_zero f32 interp f64_to_f32 scale (Z32 1) fuel s1 len (f64_of_bits dt)) with
         | Ok (s2, outs) => enc_frames outs ++ sh_state s2 :: bits_of_f64 (sh_pos s2) :: go s2 rest
         | Panic k => [1000 + panic_code k]
